@@ -52,6 +52,8 @@ func c09Build() (*c09world, error) {
 	for i, f := range files {
 		b = b.AddTemplateString(fmt.Sprintf("f%d.soy", i), f)
 	}
+	// a failure two calls deep (the error text carries the chain of call sites)
+	b = b.AddTemplateString("f2.soy", "{namespace p.three}\n{alias p.one}\n{alias p.two}\n/** @param x */\n{template .failsdeep}\nd{call .failsmid data=\"all\"/}\n{/template}\n/** @param x */\n{template .failsmid}\nm{call two.show/}{call one.fails data=\"all\"/}\n{/template}\n")
 	reg, err := b.Compile()
 	if err != nil {
 		return nil, err
@@ -84,7 +86,7 @@ func c09Ops() []c09op {
 		render("p.one.main", 0, true),
 		render("p.two.show", 0, false),
 		render("p.one.fails", 0, false),
-		render("p.one.failsdeep", 0, false),
+		render("p.three.failsdeep", 0, false),
 		{"js es5 file#0", func(w *c09world) string {
 			var buf bytes.Buffer
 			err := soyjs.Write(&buf, w.reg.SoyFiles[0], soyjs.Options{})
@@ -103,7 +105,12 @@ func c09Ops() []c09op {
 			return buf.String() + errClass(err1) + errClass(err0)
 		}},
 		{"compile an independent bundle and render it", func(w *c09world) string {
-			t, err := soy.NewBundle().AddTemplateString("ind.soy", "{namespace ind}\n/** @param x */\n{template .t}\n{msg desc=\"d\"}a{$x}b<b>{$x.yZ}</b>{/msg}{['k': $x, 'j': 1]}{let $b}[{$x.yZ}]{/let}{$b}\n{/template}\n").CompileToTofu()
+			// its globals come from text (each line is evaluated as an expression)
+			g, gerr := soy.ParseGlobals(strings.NewReader("IND_A = 1 + 2\nIND_B = 'x' + 'y'\n"))
+			if gerr != nil {
+				return "globals error " + gerr.Error()
+			}
+			t, err := soy.NewBundle().AddGlobalsMap(g).AddTemplateString("ind.soy", "{namespace ind}\n/** @param x */\n{template .t}\n{msg desc=\"d\"}a{$x}b<b>{$x.yZ}</b>{/msg}{['k': $x, 'j': 1]}{let $b}[{$x.yZ}]{/let}{$b}{IND_A}{IND_B}\n{/template}\n").CompileToTofu()
 			if err != nil {
 				return "compile error " + err.Error()
 			}
